@@ -84,7 +84,7 @@ INTS = [70, -3, 0, 1000000, 16777217]
 ID_LISTS = {
     # several lists whose lexicographic order differs from their insertion order (JSON written with sort_keys=True
     # then stores the individuals in another order than the identifier list)
-    "quick": [["a"], ["1", "02"], ["x", "y", "z"], ["z", "y", "x"], ["NA", "b"], ["10", "9", "100", "2"]],
+    "quick": [["a"], ["1", "02"], ["z", "y", "x"], ["NA", "b"], ["10", "9", "100", "2"]],
     "thorough": [["a"], ["1", "02"], ["x", "y", "z"], ["z", "y", "x"], ["NA", "b"], ["10", "9", "100", "2"],
                  ["10", "9", "1.0", " a"], ["null"], ["nan", "None", "c"], ["a,b", 'q"r', "é"]],
 }
@@ -979,17 +979,24 @@ def add_specs(tier, ids, names, first_shape):
         has_v = any(len(s) == 1 for s in shapes)
         for styp, vtyp in _type_modes(tier, has_s, has_v):
             diag = (styp, vtyp) in [(s if has_s else None, v if has_v else None) for s, v in DIAGONAL]
+            plain = (styp, vtyp) == ("float" if has_s else None, "list_float" if has_v else None)
             for off in offsets:
-                if tier != "quick" and not diag and off not in (0, 3):
-                    continue  # off-diagonal type pairs: two placements; diagonal pairs: every placement
+                if tier == "quick" and not plain and off != 0:
+                    continue  # quick: plain Python floats at both placements, every other type pair at one
+                if tier != "quick" and not diag and off != 0:
+                    continue  # thorough: off-diagonal type pairs at one placement
+                if tier != "quick" and not plain and off not in (0, 3, 5, 8):
+                    continue  # thorough: plain Python floats at every placement, other diagonal pairs at four
                 for rot in rots:
+                    if tier != "quick" and len(rots) > 1 and rot == 0 and (not diag or off not in (0, 3)):
+                        continue  # same key order for every individual: diagonal pairs at two placements only
                     yield {"start": "add", "ids": ids, "names": names, "shapes": shapes, "styp": styp, "vtyp": vtyp,
                            "offset": off, "vset": vset, "rot": rot}
 
 
 def other_start_specs(tier, ids, names=None):
     vset = tier
-    offsets = [0, 3] if tier == "quick" else list(range(len(VALUES[vset])))
+    offsets = [0] if tier == "quick" else [0, 3, 5, 7, 9]
     namings = NAMINGS[tier] if names is None else [names]
     for names in namings:
         for sizes in itertools.product([1, 2, 3], repeat=len(names)):
@@ -1005,7 +1012,7 @@ def other_start_specs(tier, ids, names=None):
 
 
 def _depth(tier):
-    return 3 if tier == "quick" else 5
+    return 4 if tier == "quick" else 6
 
 
 def bounds(tier):
@@ -1015,10 +1022,12 @@ def bounds(tier):
         "shapes_per_parameter": SHAPES,
         "scalar_types": SCALAR_TYPES,
         "vector_types": VECTOR_TYPES,
-        "type_pairs": "diagonal (8 pairs)" if tier == "quick" else "full product 7 x 8 (off-diagonal pairs at 2 value placements)",
+        "type_pairs": "diagonal (8 pairs; float/list at 2 value placements, the others at 1)" if tier == "quick"
+        else "full product 7 x 8",
         "values": [repr(v) for v in VALUES[tier]],
         "int_values": INTS,
-        "value_placements": "cyclic offsets {0,3}" if tier == "quick" else "all cyclic offsets",
+        "value_placements": "cyclic offsets: float/list {0,3}, other type pairs and other starts {0}" if tier == "quick"
+        else "cyclic offsets: float/list all 10, other diagonal type pairs {0,3,5,8}, off-diagonal pairs {0}, other starts {0,3,5,7,9}",
         "conversion_chain_length": f"<= {_depth(tier)} over {STEPS} (breadth-first, fixpoint detected when no new container content appears)",
         "json_save_options": {k: {a: repr(b) for a, b in v.items()} for k, v in JSON_KWARGS.items()},
         "accessors_read_on_every_distinct_container": "to_dataframe, to_pytorch, items, subset (reversed with/without copy, first only, rotated), "
